@@ -1906,8 +1906,10 @@ class Isometry(projective.Transformation, HyperbolicObject):
         if like is None:
             like = angle
 
+        # integer_type=False: the entries are cosines and sines, so an
+        # integer-typed angle must not produce an integer matrix
         affine = utils.identity(
-            dimension, like=like, **kwargs
+            dimension, like=like, integer_type=False, **kwargs
         )
 
         affine[0:2, 0:2] = utils.rotation_matrix(
@@ -1915,7 +1917,7 @@ class Isometry(projective.Transformation, HyperbolicObject):
         )
 
         return Isometry.elliptic(dimension, affine,
-                                 like=like, **kwargs)
+                                 like=affine, **kwargs)
 
     @staticmethod
     def from_sl2(matrix, **kwargs):
